@@ -862,6 +862,25 @@ impl<'r> Gen<'r> {
                         wrap.push(Box::new(move |k| C::Bind(y, Box::new(call), res, Box::new(k))));
                     }
                 }
+                | 0 if self.rng.chance(1, 2) => {
+                    // a fixed point entered directly - applied where it stands, or as the bindee of a
+                    // `do` - so that it runs on a non-trivial stack; its body and that stack may
+                    // mention the same outer variables
+                    let (_, v, _) = self.gen_loop(&ctx);
+                    let V::Thunk(fixed, _) = v else { unreachable!() };
+                    let y = self.fresh();
+                    let int_vars: Vec<usize> = ctx.iter().filter(|(_, t)| matches!(t, VTy::Int("i64"))).map(|(x, _)| *x).collect();
+                    let arg = if !int_vars.is_empty() && self.rng.chance(1, 2) {
+                        // bounded: the countdown starts from a small literal below
+                        V::Int("i64", self.rng.range(0, 6) as i128)
+                    } else {
+                        V::Int("i64", self.rng.range(0, 6) as i128)
+                    };
+                    self.feat("fix_direct");
+                    let call = C::App(fixed, arg, CTy::Ret(Box::new(VTy::Int("i64"))));
+                    ctx.push((y, VTy::Int("i64")));
+                    wrap.push(Box::new(move |k| C::Bind(y, Box::new(call), VTy::Int("i64"), Box::new(k))));
+                }
                 | 0 => {
                     let (x, v, t) = self.gen_loop(&ctx);
                     ctx.push((x, t));
